@@ -220,6 +220,9 @@ pub struct Explored<S> {
     pub parent: Vec<(u32, char)>,
     pub transitions: u64,
     pub capped: bool,
+    /// transitions into states that were already known (from, character, to): together with the
+    /// BFS tree (`parent`) these are ALL explored transitions
+    pub cross: Vec<(u32, char, u32)>,
 }
 
 impl<S> Explored<S> {
@@ -241,7 +244,7 @@ pub fn explore<M: Monitor>(dfas: &[&Dfa], mon: &M, alphabet: &[char], cap: usize
     for (i, d) in dfas.iter().enumerate() {
         init[i] = d.start().as_u32();
     }
-    let mut ex = Explored { states: vec![], parent: vec![], transitions: 0, capped: false };
+    let mut ex = Explored { states: vec![], parent: vec![], transitions: 0, capped: false, cross: vec![] };
     let mut index: HashMap<(Tuple, M::S), u32> = HashMap::new();
     let s0 = (Tuple(init), mon.init());
     index.insert(s0, 0);
@@ -264,14 +267,17 @@ pub fn explore<M: Monitor>(dfas: &[&Dfa], mon: &M, alphabet: &[char], cap: usize
             }
             ex.transitions += 1;
             let key = (Tuple(t2), m2);
-            if !index.contains_key(&key) {
-                if ex.states.len() >= cap {
-                    ex.capped = true;
-                    continue;
-                }
-                index.insert(key, ex.states.len() as u32);
-                ex.states.push(key);
-                ex.parent.push((head as u32, c));
+            match index.get(&key) {
+                Some(&to) => ex.cross.push((head as u32, c, to)),
+                None => {
+                    if ex.states.len() >= cap {
+                        ex.capped = true;
+                        continue;
+                    }
+                    index.insert(key, ex.states.len() as u32);
+                    ex.states.push(key);
+                    ex.parent.push((head as u32, c));
+                },
             }
         }
         head += 1;
